@@ -43,7 +43,7 @@ Lemma rel_define_function fl W sc e st E stL fv ps ks rk body g k bc ctx c c2 l 
   fresh_id pv sv bound fl sc fv = true ->
   params_ok pv sv bound ((fv, KF ks rk) :: fl) sc ps = true -> length ks = length ps ->
   fbody_check (frag_stmts pv sv bound (snd (bind_scope ps ks sc ((fv, KF ks rk) :: fl))) k (fst (bind_scope ps ks sc ((fv, KF ks rk) :: fl))))
-              (fun fl1 sc1 x => frag_fexpr pv sv bound fl1 k sc1 x) k body rk = true ->
+              (fun fl1 sc1 x => frag_fexpr pv sv bound fl1 k sc1 x) (fun fl1 sc1 x => frag_expr pv sv bound fl1 k sc1 x) k body rk = true ->
   lower_fbody (statement g) (expression g) body ctx c = Ok (bc, c2) ->
   ucovers u bc -> bound <= c -> lut_ok bound l c c2 -> E_free E c c2 ->
   let E1 := sset (fmt_var fv) (s_ncell stL) E in
@@ -661,7 +661,39 @@ Proof.
       * intros v Hnv. rewrite Hu by (intros Hin; apply Hnv; right; exact Hin). apply sget_sset_var. intros ->. apply Hnv. left. reflexivity.
 Qed.
 
+Definition guard_ok (fl : list (N * kind)) (k : nat) (sc : list N) (rk : kind) (g : Resolved.stmt) : bool :=
+  match guard_parts g with
+  | Some (c, fx) =>
+      noexit_expr k c && frag_expr pv sv bound fl k sc c && noexit_fexpr k fx &&
+      match frag_fexpr pv sv bound fl k sc fx with Some K => kind_eqb K rk | None => false end
+  | None => false
+  end.
+
 End Bind.
+
+Lemma split_last_inv {A} : forall (l : list A) i y, split_last l = Some (i, y) -> l = i ++ [y].
+Proof.
+  induction l as [|x t IH]; intros i y H; cbn [split_last] in H; [discriminate|].
+  destruct (split_last t) as [[i' y']|] eqn:Ht.
+  - inversion H; subst. cbn [app]. f_equal. apply IH. reflexivity.
+  - inversion H; subst. destruct t as [|x' t']; [reflexivity|]. cbn [split_last] in Ht. destruct (split_last t') as [[? ?]|]; discriminate Ht.
+Qed.
+
+Lemma exec_block_app : forall a n e st b,
+  SyltSem.exec_block n e (a ++ b) st =
+  (let (r, st') := SyltSem.exec_block n e a st in
+   match r with
+   | SyltSem.RVal e' => SyltSem.exec_block (n - length a) e' b st'
+   | SyltSem.RStop o => (SyltSem.RStop o, st')
+   | SyltSem.RAbrupt c => (SyltSem.RAbrupt c, st')
+   end).
+Proof.
+  induction a as [|s a IH]; intros n e st b.
+  - cbn [app length]. rewrite Nat.sub_0_r. destruct n as [|n]; reflexivity.
+  - destruct n as [|n]; [reflexivity|]. cbn [app SyltSem.exec_block length Nat.sub]. unfold SyltSem.bind.
+    destruct (SyltSem.exec n e s st) as [[e1|o|cc] st1]; [apply IH | reflexivity | reflexivity].
+Qed.
+
 
 
 
@@ -947,7 +979,7 @@ Lemma P_fb_succ_plain n :
   forall g k body ctx c code c' e st r st' sc l E stL F,
     SyltSem.block_value (S n) e body st = (r, st') ->
     lower_fbody (statement g) (expression g) body ctx c = Ok (code, c') ->
-    fbody_check (frag_stmts pv sv bound fl k sc) (fun fl1 sc1 x => frag_fexpr pv sv bound fl1 k sc1 x) k body KP = true ->
+    fbody_check (frag_stmts pv sv bound fl k sc) (fun fl1 sc1 x => frag_fexpr pv sv bound fl1 k sc1 x) (fun fl1 sc1 x => frag_expr pv sv bound fl1 k sc1 x) k body KP = true ->
     ucovers u code -> ctx_ok l F E c c' ->
     rel sc e st E stL -> interesting r ->
     exists b l', cshape u l code b l' c c' /\ fb_post pv sv bound u fl W KP sc e E stL b r st'.
@@ -1075,27 +1107,348 @@ Proof.
 Qed.
 
 
-Lemma split_last_inv {A} : forall (l : list A) i y, split_last l = Some (i, y) -> l = i ++ [y].
+(* ---- a guard  if c do ret <function value> end  in the body of a function that returns a function ---- *)
+Lemma P_guard m ka kr :
+  (forall m', (m' <= m)%nat -> P_eval pv sv bound u fl W m') -> (forall m', (m' <= m)%nat -> P_farg pv sv bound u fl W m') ->
+  forall g k G cnd fx ctx c code c' e st r st' sc l E stL F,
+    guard_parts G = Some (cnd, fx) ->
+    SyltSem.exec m e G st = (r, st') -> statement g G ctx c = Ok (code, c') ->
+    frag_expr pv sv bound fl k sc cnd = true -> noexit_expr k cnd = true ->
+    frag_fexpr pv sv bound fl k sc fx = Some (KF ka kr) -> noexit_fexpr k fx = true ->
+    ucovers u code -> ctx_ok l F E c c' -> rel sc e st E stL -> interesting r ->
+    exists b l', cshape u l code b l' c c' /\
+      match r with
+      | SyltSem.RVal e' => e' = e /\ exists E' stL' F', SimExpr.okstep pv sv bound u fl W sc e st' F c c' E stL b E' stL' F'
+      | SyltSem.RStop o => exists ev stL', ExecS E b stL (RErr ev stL') /\ SyltSem.trace st' = s_out stL'
+      | SyltSem.RAbrupt (SyltSem.CReturn v) =>
+          exists W1 E' Er stL' lv, wsub W W1 /\ ExecS E b stL (ROk (Er, SigReturn [lv]) stL') /\ arel W1 (KF ka kr) v lv /\
+            SimDefs.rel pv sv bound u fl W1 sc e st' E' stL' /\ keep fl sc E E' /\ (s_ncell stL <= s_ncell stL')%positive
+      | SyltSem.RAbrupt _ => False
+      end.
 Proof.
-  induction l as [|x t IH]; intros i y H; cbn [split_last] in H; [discriminate|].
-  destruct (split_last t) as [[i' y']|] eqn:Ht.
-  - inversion H; subst. cbn [app]. f_equal. apply IH. reflexivity.
-  - inversion H; subst. destruct t as [|x' t']; [reflexivity|]. cbn [split_last] in Ht. destruct (split_last t') as [[? ?]|]; discriminate Ht.
+  intros IHe IHF g k G cnd fx ctx c code c' e st r st' sc l E stL F HGp Hev Hlow Hfc Hnc Hff Hnf Hu Hctx Hrel Hint.
+  destruct (guard_parts_inv _ _ _ HGp) as (sp1 & sp2 & sp3 & sp4 & ->). clear HGp.
+  pose proof Hctx as [Hbc Hlut HFo HEf].
+  (* the lowering *)
+  destruct g as [|g1]; [discriminate Hlow|]. cbn [statement] in Hlow. mon Hlow.
+  destruct g1 as [|g2]; [discriminate Hm|]. cbn [expression] in Hm. mon Hm. fresh_all. cbn [fst] in *.
+  apply mapM_cons_ok in Hm1 as (y & c1 & ys & Hy & Hnil & ->). apply mapM_nil_ok in Hnil as [-> ->].
+  unfold lower_if_branch in Hy. mon Hy. destruct a as [code_c vc]. cbn [fst snd] in *.
+  unfold lower_eblock in Hm0. cbn [rev app] in Hm0. unfold lower_list in Hm0. mon Hm0.
+  apply mapM_cons_ok in Hm1 as (y2 & c2 & ys2 & Hy2 & Hnil & ->). apply mapM_nil_ok in Hnil as [-> ->].
+  destruct g2 as [|g3]; [discriminate Hy2|]. cbn [statement] in Hy2. mon Hy2. destruct a as [code_f rv]. cbn [fst snd concat map] in *.
+  rename c2 into c'.
+  assert (Hcode : [IDefine c] ++ ((code_c ++ [IIf vc] ++ ((code_f ++ [IReturn rv]) ++ []) ++ [IElse]) ++ []) ++ [IEnd]
+                  = IDefine c :: code_c ++ (IIf vc :: (code_f ++ [IReturn rv]) ++ IElse :: [] ++ [IEnd]))
+    by (repeat (first [rewrite app_nil_r | rewrite <- app_assoc | progress cbn [app]]); reflexivity).
+  rewrite Hcode in *. clear Hcode.
+  (* structure and usage counts *)
+  destruct (L_expr_all pv sv bound u fl (S g3) k cnd ctx (c + 1) code_c vc c0 sc l Hm Hfc) as (_ & _ & (_ & Hc0 & _) & Hvc1 & Hvc2).
+  assert (HLf : forall l0, exists bf l2, cshape u l0 code_f bf l2 c0 c' /\ c0 <= rv /\ rv < c')
+    by (intros l0; apply (L_fexpr_all pv sv bound u fl g3 k fx _ ctx c0 code_f rv c' sc l0 Hm0 Hff)).
+  destruct (HLf l) as (_ & _ & (_ & Hc0' & _) & _).
+  apply ucovers_cons in Hu as [Hud Hu]. apply ucovers_app in Hu as [Huc Hu]. apply ucovers_cons in Hu as [Huif Hu].
+  apply ucovers_app in Hu as [Hub _]. apply ucovers_app in Hub as [Huf Hur].
+  assert (Hcc : 1 <= count_of u c) by (apply Hud; left; reflexivity).
+  assert (Hcvc : 1 <= count_of u vc) by (apply Huif; left; reflexivity).
+  assert (Hcrv : 1 <= count_of u rv) by (eapply Hur; [left; reflexivity | left; reflexivity]).
+  (* the block for given sub-blocks *)
+  assert (Hmk : forall bc l1 bf l2, cshape u l code_c bc l1 (c + 1) c0 -> cshape u l1 code_f bf l2 c0 c' ->
+            cshape u l (IDefine c :: code_c ++ (IIf vc :: (code_f ++ [IReturn rv]) ++ IElse :: [] ++ [IEnd]))
+                   (fst (agen_one u l (IDefine c)) ++ bc ++ [SIf (aexpand l1 vc) (bf ++ fst (agen_one u l2 (IReturn rv))) []]) l2 c c').
+  { intros bc l1 bf l2 H1 H2.
+    eapply cshape_cons'; [apply (cshape_plain u l (IDefine c) c c'); [lia | reflexivity | reflexivity | apply used_plain]|].
+    eapply cshape_app'; [eapply cshape_widen; [exact H1 | lia | lia]|].
+    eapply cshape_ifelse; [|apply cshape_nil'; lia].
+    eapply cshape_app'; [eapply cshape_widen; [exact H2 | lia | lia]|].
+    apply (cshape_plain u l2 (IReturn rv) c c'); [lia | reflexivity | reflexivity | reflexivity]. }
+  (* local V<out> = nil *)
+  assert (Hctxd : ctx_ok l F E c (c + 1)) by (eapply ctx_sub; [exact Hctx | lia | lia]).
+  destruct (step_define_temp pv sv bound u fl W sc e st F c (c + 1) E stL l c Hrel Hctxd ltac:(lia) Hcc) as (E1 & stL1 & p & Hokd & Hp & Hcell & Hnp).
+  assert (Hsd : cshape u l [IDefine c] (fst (agen_one u l (IDefine c))) l c (c + 1))
+    by (apply cshape_plain; [lia | reflexivity | reflexivity | apply used_plain]).
+  assert (Hctx1 : ctx_ok l F E1 (c + 1) c') by (eapply (ctx_after pv sv bound u fl W); eassumption).
+  pose proof Hokd as (Hxd & Hfd & Hrel1 & _ & Hkd).
+  assert (Hokd' : SimExpr.okstep pv sv bound u fl W sc e st F c c' E stL (fst (agen_one u l (IDefine c))) E1 stL1 F)
+    by (eapply (okstep_widen pv sv bound u fl W); [exact Hokd | lia | lia]).
+  (* the reference interpreter *)
+  destruct m as [|m1]; [cbn in Hev; inversion Hev; subst; destruct Hint|].
+  cbn [SyltSem.exec] in Hev. unfold SyltSem.bind at 1 in Hev.
+  destruct m1 as [|m2]; [cbn in Hev; inversion Hev; subst; destruct Hint|].
+  rewrite seval_if in Hev.
+  change (if_go m2 e [IfBranch (Some cnd) [SRet (Some fx) sp1] sp2])
+    with (SyltSem.bind (SyltSem.eval m2 e cnd) (fun c => SyltSem.bind (SyltSem.truth "if" c) (fun bc =>
+            if bc then SyltSem.block_value m2 e [SRet (Some fx) sp1] else SyltSem.ret (SyltSem.SV Values.VLuaNil)))) in Hev.
+  unfold SyltSem.bind at 1 in Hev.
+  destruct (SyltSem.eval m2 e cnd st) as [rc st1] eqn:Hec.
+  assert (Hctxc : ctx_ok l F E1 (c + 1) c0) by (eapply ctx_sub; [exact Hctx1 | lia | lia]).
+  destruct rc as [vc_|o|cc].
+  3: { exfalso. exact (noexit_noab m2 k e cnd st _ _ Hnc Hec). }
+  2: { cbn in Hev. inversion Hev; subst r st'.
+       destruct (IHe m2 ltac:(lia) (S g3) k cnd ctx (c + 1) code_c vc c0 e st _ st1 sc l E1 stL1 F Hec Hm Hfc Huc Hctxc Hrel1 Hint)
+         as (bc & l1 & Hs1 & _ & _ & Hp1).
+       destruct (HLf l1) as (bf & l2 & Hs2 & _).
+       eexists _, _. split; [apply (Hmk bc l1 bf l2 Hs1 Hs2)|].
+       destruct Hp1 as (rl & Hx & (ev & stL' & -> & Htr)). exists ev, stL'. split; [|exact Htr].
+       eapply ExecS_app; [exact Hxd|]. apply ExecS_app_stop; [exact Hx | intros []]. }
+  destruct (IHe m2 ltac:(lia) (S g3) k cnd ctx (c + 1) code_c vc c0 e st _ st1 sc l E1 stL1 F Hec Hm Hfc Huc Hctxc Hrel1 I)
+    as (bc & l1 & Hs1 & _ & _ & E2 & stL2 & F2 & Hok2 & Hd2). specialize (Hd2 Hcvc).
+  pose proof Hok2 as (Hx2 & Hf2 & Hrel2 & Hn2 & Hk2).
+  assert (Hctx2 : ctx_ok l1 F2 E2 c0 c') by (eapply (ctx_after pv sv bound u fl W); eassumption).
+  pose proof (r_wf _ _ _ _ _ _ _ _ _ _ _ Hrel2) as Hwf2. pose proof (r_linv _ _ _ _ _ _ _ _ _ _ _ Hrel2) as Hli2.
+  destruct (denotes_now _ _ _ _ _ Hd2 Hwf2 Hli2) as (lvc & Hvvc & stc & Hevc & _ & Hxc).
+  unfold SyltSem.bind at 1 in Hev.
+  assert (Hbcv : exists bcv, vc_ = SyltSem.SV (Values.VBool bcv)).
+  { inversion Hvvc; subst; cbn in Hev; inversion Hev; subst; try destruct Hint. eauto. }
+  destruct Hbcv as [bcv ->]. cbn [SyltSem.truth SyltSem.ret] in Hev. inversion Hvvc; subst lvc.
+  assert (Hrelc : rel sc e st1 E2 stc) by (eapply rel_cells_ext; eassumption).
+  assert (Hokc : SimExpr.okstep pv sv bound u fl W sc e st1 F c c' E stL (fst (agen_one u l (IDefine c)) ++ bc) E2 stL2 F2).
+  { eapply (okstep_trans' pv sv bound u fl W); [exact Hokd'|]. eapply (okstep_widen pv sv bound u fl W); [exact Hok2 | lia | lia]. }
+  destruct bcv.
+  - (* the guard fires *)
+    destruct m2 as [|m3]; [cbn in Hev; inversion Hev; subst; destruct Hint|].
+    cbn [SyltSem.block_value rev app] in Hev. unfold SyltSem.bind at 1 in Hev.
+    destruct m3 as [|m4]; [cbn in Hev; inversion Hev; subst; destruct Hint|].
+    cbn [SyltSem.exec_block] in Hev. unfold SyltSem.bind at 1 in Hev.
+    destruct m4 as [|m5]; [cbn in Hev; inversion Hev; subst; destruct Hint|].
+    cbn [SyltSem.exec] in Hev. unfold SyltSem.bind at 1 in Hev.
+    destruct (SyltSem.eval m5 e fx st1) as [[y|o|cc] st2] eqn:Hef.
+    3: { exfalso. exact (noexit_fexpr_noab m5 k e fx st1 _ _ Hnf Hef). }
+    2: { cbn in Hev. inversion Hev; subst r st'.
+         destruct (IHF m5 ltac:(lia) g3 k fx _ ctx c0 code_f rv c' e st1 _ st2 sc l1 E2 stc F2 Hef Hm0 Hff Huf Hcrv Hctx2 Hrelc Hint)
+           as (bf & l2 & Hs2 & _ & _ & Hp2).
+         eexists _, _. split; [apply (Hmk bc l1 bf l2 Hs1 Hs2)|].
+         destruct Hp2 as (rl & Hx & (ev & stL' & -> & Htr)). exists ev, stL'. split; [|exact Htr].
+         rewrite app_assoc. eapply ExecS_app; [apply Hokc|]. apply XS_stop; [|intros []].
+         eapply (Exec_if_err E2 (aexpand l1 vc) _ _ stL2 (VBool true) stc); [exact Hevc|]. cbn [truthy].
+         apply ExecBlock_of_ExecS_nil; [apply ExecS_app_stop; [exact Hx | intros []]|].
+         apply nolabel_app; [apply Hs2 | cbn [agen_one fst]; repeat constructor]. }
+    cbn in Hev. inversion Hev; subst r st'. clear Hev.
+    destruct (IHF m5 ltac:(lia) g3 k fx _ ctx c0 code_f rv c' e st1 _ st2 sc l1 E2 stc F2 Hef Hm0 Hff Huf Hcrv Hctx2 Hrelc I)
+      as (bf & l2 & Hs2 & _ & _ & W1 & E3 & stL3 & F3 & Hw1 & Hok3 & Hrel3 & Hd3).
+    eexists _, _. split; [apply (Hmk bc l1 bf l2 Hs1 Hs2)|].
+    cbn [adenotes] in Hd3. destruct Hd3 as (d & HdW & Hdk & -> & Hld).
+    pose proof Hok3 as (Hx3 & Hf3 & _ & _ & Hk3).
+    destruct (Hld E3 stL3 (fut_refl _ _ _) (r_wf _ _ _ _ _ _ _ _ _ _ _ Hrel3) (r_linv _ _ _ _ _ _ _ _ _ _ _ Hrel3)) as (st4 & _ & Hm4 & Hx4).
+    exists W1, E3, E2, st4, (VFun (fd_fid d)). splits.
+    + exact Hw1.
+    + rewrite app_assoc. eapply ExecS_app; [apply Hokc|]. apply XS_stop; [|intros []].
+      eapply (Exec_if E2 (aexpand l1 vc) _ _ stL2 (VBool true) stc); [exact Hevc|]. cbn [truthy].
+      apply ExecBlock_of_ExecS_nil; [|apply nolabel_app; [apply Hs2 | cbn [agen_one fst]; repeat constructor]].
+      eapply ExecS_app; [exact Hx3|]. cbn [agen_one fst]. apply XS_stop; [|intros []].
+      eapply Exec_do. apply ExecBlock_of_ExecS; [|repeat constructor | intros []].
+      apply XS_stop; [|intros []]. apply Exec_return. apply EvalList_one. exact Hm4.
+    + cbn [arel]. exists d. auto.
+    + eapply rel_cells_ext; eassumption.
+    + destruct Hokc as (_ & _ & _ & _ & Hkc). eapply keep_trans; [exact Hkc | exact Hk3].
+    + destruct Hokc as (_ & Hfc' & _). pose proof (wr_ncell _ _ _ _ _ _ _ Hfc'). pose proof (wr_ncell _ _ _ _ _ _ _ Hf3).
+      destruct Hxc as (_ & _ & _ & _ & _ & _ & Hnc' & _). destruct Hx4 as (_ & _ & _ & _ & _ & _ & Hn4 & _). lia.
+  - (* the guard does not fire *)
+    cbn in Hev. inversion Hev; subst r st'. clear Hev.
+    destruct (HLf l1) as (bf & l2 & Hs2 & _).
+    eexists _, _. split; [apply (Hmk bc l1 bf l2 Hs1 Hs2)|].
+    split; [reflexivity|]. exists E2, stc, F2.
+    rewrite app_assoc. eapply (okstep_trans' pv sv bound u fl W); [exact Hokc|].
+    eapply (okstep_if pv sv bound u fl W sc e st1 st1 F2 c c' E2 stL2 (aexpand l1 vc) _ [] (VBool false) stc E2 stc); try assumption.
+    + cbn [truthy]. constructor.
+    + cbn [truthy]. apply XS_nil.
+    + split; [lia | intros; reflexivity].
 Qed.
+
+
+(* the guards of a body, one after the other: all pass (the environments are the ones before), or one returns *)
+Lemma P_guards ka kr : forall guards m,
+  (forall m', (m' <= m)%nat -> P_eval pv sv bound u fl W m') -> (forall m', (m' <= m)%nat -> P_farg pv sv bound u fl W m') ->
+  forall g k ctx c cs c' e st r st' sc l E stL F,
+    SyltSem.exec_block m e guards st = (r, st') -> mapM (fun s => statement g s ctx) guards c = Ok (cs, c') ->
+    forallb (guard_ok pv sv bound fl k sc (KF ka kr)) guards = true ->
+    ucovers u (concat cs) -> ctx_ok l F E c c' -> rel sc e st E stL -> interesting r ->
+    exists b l', cshape u l (concat cs) b l' c c' /\
+      match r with
+      | SyltSem.RVal e' => e' = e /\ exists E' stL' F', SimExpr.okstep pv sv bound u fl W sc e st' F c c' E stL b E' stL' F'
+      | SyltSem.RStop o => exists ev stL', ExecS E b stL (RErr ev stL') /\ SyltSem.trace st' = s_out stL'
+      | SyltSem.RAbrupt (SyltSem.CReturn v) =>
+          exists W1 E' Er stL' lv, wsub W W1 /\ ExecS E b stL (ROk (Er, SigReturn [lv]) stL') /\ arel W1 (KF ka kr) v lv /\
+            SimDefs.rel pv sv bound u fl W1 sc e st' E' stL' /\ keep fl sc E E' /\ (s_ncell stL <= s_ncell stL')%positive
+      | SyltSem.RAbrupt _ => False
+      end.
+Proof.
+  induction guards as [|G gs IHg]; intros m IHe IHF g k ctx c cs c' e st r st' sc l E stL F Hev Hm Hgs Hu Hctx Hrel Hint.
+  - destruct (mapM_nil_ok _ _ _ _ Hm) as [-> ->].
+    destruct m as [|m1]; [cbn in Hev; inversion Hev; subst; destruct Hint|]. cbn in Hev. inversion Hev; subst r st'.
+    eexists _, _. split; [apply cshape_nil|]. split; [reflexivity|]. exists E, stL, F. apply (okstep_refl pv sv bound u fl W). exact Hrel.
+  - cbn [forallb] in Hgs. apply andb_prop in Hgs as [HG Hgs].
+    apply mapM_cons_ok in Hm as (y & c1 & ys & Hy & Hys & ->). cbn [concat] in *. apply ucovers_app in Hu as [Huy Huys].
+    unfold guard_ok in HG. destruct (guard_parts G) as [[cnd gfx]|] eqn:HGp; [|discriminate HG].
+    apply andb_prop in HG as [HG Hk4]. apply andb_prop in HG as [HG Hnf]. apply andb_prop in HG as [Hnc Hfc].
+    destruct (frag_fexpr pv sv bound fl k sc gfx) as [K'|] eqn:Hff; [|discriminate Hk4]. apply kind_eqb_eq in Hk4. subst K'.
+    destruct (L_guard pv sv bound u g (fun g' _ fl0 => L_expr_all pv sv bound u fl0 g') (fun g' _ fl0 => L_fexpr_all pv sv bound u fl0 g')
+                      fl k G cnd gfx _ ctx c y c1 sc l HGp Hy Hfc Hff) as (_ & _ & (_ & Hcc1 & _)).
+    assert (HLr : forall l0, exists b2 l2, cshape u l0 (concat ys) b2 l2 c1 c').
+    { intros l0. clear - Hys Hgs. revert ys c1 Hys l0. induction gs as [|G2 gs2 IH2]; intros ys c1 Hys l0.
+      - destruct (mapM_nil_ok _ _ _ _ Hys) as [-> ->]. eexists _, _. apply cshape_nil.
+      - cbn [forallb] in Hgs. apply andb_prop in Hgs as [HG2 Hgs2].
+        apply mapM_cons_ok in Hys as (y2 & c2 & ys2 & Hy2 & Hys2 & ->). cbn [concat].
+        unfold guard_ok in HG2. destruct (guard_parts G2) as [[cnd2 fx2]|] eqn:HGp2; [|discriminate HG2].
+        apply andb_prop in HG2 as [HG2 Hk42]. apply andb_prop in HG2 as [HG2 _]. apply andb_prop in HG2 as [_ Hfc2].
+        destruct (frag_fexpr pv sv bound fl k sc fx2) as [K2|] eqn:Hff2; [|discriminate Hk42].
+        destruct (L_guard pv sv bound u g (fun g' _ fl0 => L_expr_all pv sv bound u fl0 g') (fun g' _ fl0 => L_fexpr_all pv sv bound u fl0 g')
+                          fl k G2 cnd2 fx2 _ ctx c1 y2 c2 sc l0 HGp2 Hy2 Hfc2 Hff2) as (bg & lg & Hsg).
+        destruct (IH2 Hgs2 ys2 c2 Hys2 lg) as (b3 & l3 & Hs3). eexists _, _. eapply cshape_app; eassumption. }
+    destruct (HLr l) as (_ & _ & (_ & Hc1c' & _)).
+    destruct m as [|m1]; [cbn in Hev; inversion Hev; subst; destruct Hint|].
+    cbn [SyltSem.exec_block] in Hev. unfold SyltSem.bind at 1 in Hev.
+    destruct (SyltSem.exec m1 e G st) as [r1 st1] eqn:He1.
+    assert (Hi1 : interesting r1).
+    { destruct r1 as [e1|o|cc]; [exact I | inversion Hev; subst; exact Hint | inversion Hev; subst; exact Hint]. }
+    assert (Hctx1 : ctx_ok l F E c c1) by (eapply ctx_sub; [exact Hctx | lia | lia]).
+    destruct (P_guard m1 ka kr (fun m' H => IHe m' ltac:(lia)) (fun m' H => IHF m' ltac:(lia)) g k G cnd gfx ctx c y c1 e st r1 st1 sc l E stL F
+                HGp He1 Hy Hfc Hnc Hff Hnf Huy Hctx1 Hrel Hi1) as (b1 & l1 & Hs1 & Hp1).
+    destruct r1 as [e1|o|cc].
+    + destruct Hp1 as (-> & E1 & stL1 & F1 & Hok1).
+      pose proof Hok1 as (Hx1 & Hf1 & Hrel1 & Hn1 & Hk1).
+      assert (Hctx2 : ctx_ok l1 F1 E1 c1 c') by (eapply (ctx_after pv sv bound u fl W); eassumption).
+      destruct (IHg m1 (fun m' H => IHe m' ltac:(lia)) (fun m' H => IHF m' ltac:(lia)) g k ctx c1 ys c' e st1 r st' sc l1 E1 stL1 F1
+                  Hev Hys Hgs Huys Hctx2 Hrel1 Hint) as (b2 & l2 & Hs2 & Hp2).
+      eexists _, _. split; [eapply cshape_app; eassumption|].
+      destruct r as [e2|o|cc].
+      * destruct Hp2 as (-> & E2 & stL2 & F2 & Hok2). split; [reflexivity|]. exists E2, stL2, F2.
+        eapply (okstep_trans pv sv bound u fl W); [exact Hok1 | exact Hok2 | lia | lia].
+      * destruct Hp2 as (ev & stL' & Hx2 & Htr). exists ev, stL'. split; [eapply ExecS_app; eassumption | exact Htr].
+      * destruct cc as [| |v]; try contradiction.
+        destruct Hp2 as (W1 & E' & Er & stL' & lv & Hw1 & Hx2 & Hv & Hr2 & Hk2 & Hn2).
+        exists W1, E', Er, stL', lv. splits; [exact Hw1 | eapply ExecS_app; eassumption | exact Hv | exact Hr2 | eapply keep_trans; eassumption |].
+        pose proof (wr_ncell _ _ _ _ _ _ _ Hf1). lia.
+    + inversion Hev; subst r st'. destruct (HLr l1) as (b2 & l2 & Hs2).
+      eexists _, _. split; [eapply cshape_app; eassumption|].
+      destruct Hp1 as (ev & stL' & Hx1 & Htr). exists ev, stL'. split; [apply ExecS_app_stop; [exact Hx1 | intros []] | exact Htr].
+    + inversion Hev; subst r st'. destruct (HLr l1) as (b2 & l2 & Hs2).
+      eexists _, _. split; [eapply cshape_app; eassumption|].
+      destruct cc as [| |v]; try contradiction.
+      destruct Hp1 as (W1 & E' & Er & stL' & lv & Hw1 & Hx1 & Hrest).
+      exists W1, E', Er, stL', lv. split; [exact Hw1|]. split; [apply ExecS_app_stop; [exact Hx1 | intros []] | exact Hrest].
+Qed.
+
+End Body.
+
+(* ------------------------------------------------------------------ the statements of a body before its last one: those
+   that stay, then the guards *)
+Section Pre.
+Variable pv : N.
+Variable sv : N.
+Variable bound : N.
+Variable u : counts.
+
+Notation ctx_ok := (ctx_ok bound).
+
+Lemma P_pre n ka kr fl W :
+  (forall m, (m <= n)%nat -> forall fl' W', P_eval pv sv bound u fl' W' m) ->
+  (forall m, (m <= n)%nat -> forall fl' W', P_farg pv sv bound u fl' W' m) ->
+  (forall fl' W', P_blk pv sv bound u fl' W' n) ->
+  forall g k init guards ctx c cs c0 cend e st r1 st1 sc sc1 fl1 l E stL F,
+    SyltSem.exec_block n e (init ++ guards) st = (r1, st1) ->
+    mapM (fun s => statement g s ctx) (init ++ guards) c = Ok (cs, c0) ->
+    forallb (simple_init_stmt k) init = true ->
+    frag_stmts pv sv bound fl k sc init = Some (sc1, fl1) ->
+    forallb (guard_ok pv sv bound fl1 k sc1 (KF ka kr)) guards = true ->
+    ucovers u (concat cs) -> c0 <= cend -> ctx_ok l F E c cend ->
+    rel pv sv bound u fl W sc e st E stL -> interesting r1 ->
+    exists b1 l1, cshape u l (concat cs) b1 l1 c c0 /\
+      match r1 with
+      | SyltSem.RVal e1 =>
+          exists W1 E1 stL1 F1,
+            ExecS E b1 stL (ROk (E1, SigNormal) stL1) /\ wframe bound c c0 E stL E1 stL1 /\
+            rel pv sv bound u fl1 W1 sc1 e1 st1 E1 stL1 /\ wsub W W1 /\ F_new F F1 c c0 /\ keep fl sc E E1 /\
+            sext pv fl sc e e1 /\ incl sc sc1
+      | SyltSem.RStop o => exists ev stL', ExecS E b1 stL (RErr ev stL') /\ SyltSem.trace st1 = s_out stL'
+      | SyltSem.RAbrupt (SyltSem.CReturn v) =>
+          exists fl' W' sc' e' E' Er stL' lv,
+            ExecS E b1 stL (ROk (Er, SigReturn [lv]) stL') /\ arel W' (KF ka kr) v lv /\
+            rel pv sv bound u fl' W' sc' e' st1 E' stL' /\ wsub W W' /\ sext pv fl sc e e' /\ incl sc sc' /\ keep fl sc E E' /\
+            (s_ncell stL <= s_ncell stL')%positive
+      | SyltSem.RAbrupt _ => False
+      end.
+Proof.
+  intros IHe IHF IHb g k init guards ctx c cs c0 cend e st r1 st1 sc sc1 fl1 l E stL F Hev Hm Hsimple Hfi Hgs Hu Hce Hctx Hrel Hint.
+  apply mapM_app_split in Hm as (cs1 & cm & cs2 & Hm1 & Hm2 & ->). rewrite concat_app in *. apply ucovers_app in Hu as [Hu1 Hu2].
+  destruct (L_stmts_all pv sv bound u fl g k init ctx c cs1 cm sc (sc1, fl1) l Hm1 Hfi) as (_ & _ & (_ & Hccm & _)).
+  pose proof (frag_stmts_flincl pv sv bound _ _ _ _ _ _ Hfi) as Hfn.
+  assert (HLg : forall l0, exists b2 l2, cshape u l0 (concat cs2) b2 l2 cm c0).
+  { intros l0. clear - Hm2 Hgs. revert cs2 cm Hm2 l0. induction guards as [|G2 gs2 IH2]; intros cs2 cm Hm2 l0.
+    - destruct (mapM_nil_ok _ _ _ _ Hm2) as [-> ->]. eexists _, _. apply cshape_nil.
+    - cbn [forallb] in Hgs. apply andb_prop in Hgs as [HG2 Hgs2].
+      apply mapM_cons_ok in Hm2 as (y2 & c2 & ys2 & Hy2 & Hys2 & ->). cbn [concat].
+      unfold guard_ok in HG2. destruct (guard_parts G2) as [[cnd2 fx2]|] eqn:HGp2; [|discriminate HG2].
+      apply andb_prop in HG2 as [HG2 Hk42]. apply andb_prop in HG2 as [HG2 _]. apply andb_prop in HG2 as [_ Hfc2].
+      destruct (frag_fexpr pv sv bound fl1 k sc1 fx2) as [K2|] eqn:Hff2; [|discriminate Hk42].
+      destruct (L_guard pv sv bound u g (fun g' _ fl0 => L_expr_all pv sv bound u fl0 g') (fun g' _ fl0 => L_fexpr_all pv sv bound u fl0 g')
+                        fl1 k G2 cnd2 fx2 _ ctx cm y2 c2 sc1 l0 HGp2 Hy2 Hfc2 Hff2) as (bg & lg & Hsg).
+      destruct (IH2 Hgs2 ys2 c2 Hys2 lg) as (b3 & l3 & Hs3). eexists _, _. eapply cshape_app; eassumption. }
+  destruct (HLg l) as (_ & _ & (_ & Hcmc0 & _)).
+  assert (Hctxi : ctx_ok l F E c cm) by (eapply ctx_sub; [exact Hctx | lia | lia]).
+  rewrite exec_block_app in Hev.
+  destruct (SyltSem.exec_block n e init st) as [[e1|o|cc] stm] eqn:He1.
+  - (* the statements that stay ran; the guards *)
+    destruct (IHb fl W g k init ctx c cs1 cm e st _ stm sc sc1 fl1 l E stL F He1 Hm1 Hfi Hu1 Hctxi Hrel I)
+      as (b1 & l1 & Hs1 & W1 & E1 & stL1 & F1 & Hx1 & Hf1 & Hrel1 & Hw1 & HFn1 & Hk1 & Hse1 & Hinc1).
+    assert (Hctx1 : ctx_ok l1 F1 E1 cm c0).
+    { eapply ctx_sub; [eapply (ctx_after_blk bound u l F E stL c cm cend); [exact Hctx | exact Hs1 | exact Hf1 | exact HFn1] | lia | lia]. }
+    destruct (P_guards pv sv bound u fl1 W1 ka kr guards (n - length init)
+                (fun m' H => IHe m' ltac:(lia) fl1 W1) (fun m' H => IHF m' ltac:(lia) fl1 W1)
+                g k ctx cm cs2 c0 e1 stm r1 st1 sc1 l1 E1 stL1 F1 Hev Hm2 Hgs Hu2 Hctx1 Hrel1 Hint) as (b2 & l2 & Hs2 & Hp2).
+    eexists _, _. split; [eapply cshape_app; eassumption|].
+    assert (Hkx : forall E2, keep fl1 sc1 E1 E2 -> keep fl sc E E2).
+    { intros E2 H2 w Hw. rewrite H2; [apply Hk1; exact Hw|]. destruct Hw as [Hw|Hw]; [left; apply Hinc1; exact Hw | right].
+      unfold fnames in *. apply in_map_iff in Hw as (x & <- & Hx). apply in_map. apply Hfn. exact Hx. }
+    pose proof (wr_ncell _ _ _ _ _ _ _ Hf1) as Hn1.
+    destruct r1 as [e2|o|cc].
+    + destruct Hp2 as (-> & E2 & stL2 & F2 & Hx2 & Hf2 & Hrel2 & HFn2 & Hk2).
+      exists W1, E2, stL2, F2.
+      splits; [eapply ExecS_app; eassumption
+              | eapply wframe_trans; [eapply wframe_widen; [exact Hf1 | lia | lia] | eapply wframe_widen; [exact Hf2 | lia | lia]]
+              | exact Hrel2 | exact Hw1 | eapply F_new_trans; eassumption | apply Hkx; exact Hk2 | exact Hse1 | exact Hinc1].
+    + destruct Hp2 as (ev & stL' & Hx2 & Htr). exists ev, stL'. split; [eapply ExecS_app; eassumption | exact Htr].
+    + destruct cc as [| |v]; try contradiction.
+      destruct Hp2 as (W2 & E' & Er & stL' & lv & Hw2 & Hx2 & Hv & Hr2 & Hk2 & Hn2).
+      exists fl1, W2, sc1, e1, E', Er, stL', lv.
+      splits; [eapply ExecS_app; eassumption | exact Hv | exact Hr2 | eapply wsub_trans; eassumption | exact Hse1 | exact Hinc1 | apply Hkx; exact Hk2 | lia].
+  - inversion Hev; subst r1 st1.
+    destruct (IHb fl W g k init ctx c cs1 cm e st _ stm sc sc1 fl1 l E stL F He1 Hm1 Hfi Hu1 Hctxi Hrel Hint)
+      as (b1 & l1 & Hs1 & Hp1). destruct (HLg l1) as (b2 & l2 & Hs2).
+    eexists _, _. split; [eapply cshape_app; eassumption|].
+    cbn [blk_post] in Hp1. destruct Hp1 as (rl & Hx1 & (ev & stL1 & -> & Htr)).
+    exists ev, stL1. split; [apply ExecS_app_stop; [exact Hx1 | intros []] | exact Htr].
+  - exfalso. exact (simple_init_noab init n k e st _ _ Hsimple He1).
+Qed.
+End Pre.
+
+Section Body2.
+Variable pv : N.
+Variable sv : N.
+Variable bound : N.
+Variable u : counts.
+Variable fl : list (N * kind).
+Variable W : world.
+
+Notation rel := (rel pv sv bound u fl W).
+Notation ctx_ok := (ctx_ok bound).
 
 (* the body of a function that returns a function: statements that cannot leave it, then the function-valued expression *)
 Lemma P_fb_fun_expr n ka kr :
-  (forall fl' W', P_farg pv sv bound u fl' W' n) -> (forall fl' W', P_blk pv sv bound u fl' W' n) ->
-  forall g k init value sp ctx c code c' e st r st' sc sc1 fl1 l E stL F,
-    SyltSem.block_value (S n) e (init ++ [SStatementExpression value sp]) st = (r, st') ->
-    lower_fbody (statement g) (expression g) (init ++ [SStatementExpression value sp]) ctx c = Ok (code, c') ->
+  (forall m, (m <= n)%nat -> forall fl' W', P_eval pv sv bound u fl' W' m) ->
+  (forall m, (m <= n)%nat -> forall fl' W', P_farg pv sv bound u fl' W' m) -> (forall fl' W', P_blk pv sv bound u fl' W' n) ->
+  forall g k init guards value sp ctx c code c' e st r st' sc sc1 fl1 l E stL F,
+    SyltSem.block_value (S n) e ((init ++ guards) ++ [SStatementExpression value sp]) st = (r, st') ->
+    lower_fbody (statement g) (expression g) ((init ++ guards) ++ [SStatementExpression value sp]) ctx c = Ok (code, c') ->
     forallb (simple_init_stmt k) init = true -> noexit_fexpr k value = true ->
     frag_stmts pv sv bound fl k sc init = Some (sc1, fl1) -> frag_fexpr pv sv bound fl1 k sc1 value = Some (KF ka kr) ->
+    forallb (guard_ok pv sv bound fl1 k sc1 (KF ka kr)) guards = true ->
     ucovers u code -> ctx_ok l F E c c' ->
     rel sc e st E stL -> interesting r ->
     exists b l', cshape u l code b l' c c' /\ fb_post pv sv bound u fl W (KF ka kr) sc e E stL b r st'.
 Proof.
-  intros IHF IHb g k init value sp ctx c code c' e st r st' sc sc1 fl1 l E stL F Hev Hlow Hsimple Hne Hfi Hfe Hu Hctx Hrel Hint.
+  intros IHe IHFa IHb g k init guards value sp ctx c code c' e st r st' sc sc1 fl1 l E stL F Hev Hlow Hsimple Hne Hfi Hfe Hgs Hu Hctx Hrel Hint.
+  pose proof (IHFa n (Nat.le_refl n)) as IHF.
   pose proof Hctx as [Hbc Hlut HFo HEf].
   cbn [SyltSem.block_value] in Hev. unfold lower_fbody in Hlow. rewrite rev_app_distr in Hev, Hlow. cbn [rev app] in Hev, Hlow.
   rewrite rev_involutive in Hev, Hlow.
@@ -1105,30 +1458,30 @@ Proof.
   assert (Hrest : forall l0, exists b2 l2, cshape u l0 code_v b2 l2 c0 c' /\ c0 <= rv /\ rv < c')
     by (intros lx; apply (L_fexpr_all pv sv bound u fl1 g k value _ ctx c0 code_v rv c' sc1 lx Hm Hfe)).
   destruct (Hrest l) as (_ & _ & (_ & Hc0' & _) & _).
-  destruct (L_stmts_all pv sv bound u fl g k init ctx c cs c0 sc (sc1, fl1) l Hmi Hfi) as (_ & _ & (_ & Hcc0 & _)).
   assert (Hret : forall l0, cshape u l0 [IReturn rv] (fst (agen_one u l0 (IReturn rv))) l0 c' c')
     by (intros lx; apply cshape_plain; [lia | reflexivity | reflexivity | reflexivity]).
   pose proof (frag_stmts_flincl pv sv bound _ _ _ _ _ _ Hfi) as Hfn.
-  assert (Hctxi : ctx_ok l F E c c0) by (eapply ctx_sub; [exact Hctx | lia | lia]).
-  (* nothing leaves the body early *)
-  assert (Hnoab : noab r).
-  { eapply noab_bind; [exact Hev | intros a0 st0 H0; eapply simple_init_noab; eassumption |].
-    intros e0 st0 _ H0. cbv beta in H0. eapply noexit_fexpr_noab; eassumption. }
   unfold SyltSem.bind at 1 in Hev.
-  destruct (SyltSem.exec_block n e init st) as [[e1|o|cc] st1] eqn:He1.
-  3: { inversion Hev; subst. destruct Hnoab. }
-  2: { inversion Hev; subst.
-       destruct (IHb fl W g k _ ctx c _ c0 e st _ st' sc sc1 fl1 l E stL F He1 Hmi Hfi Hui Hctxi Hrel Hint)
-         as (b1 & l1 & Hs1 & Hp1). destruct (Hrest l1) as (b2 & l2 & Hs2 & _).
+  destruct (SyltSem.exec_block n e (init ++ guards) st) as [r1 st1] eqn:He1.
+  assert (Hi1 : interesting r1).
+  { destruct r1 as [e1|o|cc]; [exact I | inversion Hev; subst; exact Hint | inversion Hev; subst; destruct cc; exact Hint]. }
+  destruct (P_pre pv sv bound u n ka kr fl W IHe IHFa IHb g k init guards ctx c cs c0 c' e st r1 st1 sc sc1 fl1 l E stL F
+              He1 Hmi Hsimple Hfi Hgs Hui Hc0' Hctx Hrel Hi1) as (b1 & l1 & Hs1 & Hp1).
+  destruct r1 as [e1|o|cc].
+  3: { inversion Hev; subst r st'. destruct cc as [| |v]; try contradiction.
+       destruct (Hrest l1) as (b2 & l2 & Hs2 & _).
        eexists _, _. split; [eapply cshape_app; [exact Hs1|]; eapply cshape_app; [exact Hs2 | apply Hret]|].
-       cbn [blk_post fb_post] in *. destruct Hp1 as (rl & Hx1 & (ev & stL1 & -> & Htr)).
+       cbn [fb_post]. destruct Hp1 as (fl' & W' & sc' & e' & E' & Er & stL' & lv & Hx & Hrestp).
+       exists fl', W', sc', e', E', Er, stL', lv. split; [apply ExecS_app_stop; [exact Hx | intros []] | exact Hrestp]. }
+  2: { inversion Hev; subst r st'. destruct (Hrest l1) as (b2 & l2 & Hs2 & _).
+       eexists _, _. split; [eapply cshape_app; [exact Hs1|]; eapply cshape_app; [exact Hs2 | apply Hret]|].
+       cbn [fb_post]. destruct Hp1 as (ev & stL1 & Hx1 & Htr).
        exists ev, stL1. split; [apply ExecS_app_stop; [exact Hx1 | intros []] | exact Htr]. }
-  destruct (IHb fl W g k _ ctx c _ c0 e st _ st1 sc sc1 fl1 l E stL F He1 Hmi Hfi Hui Hctxi Hrel I)
-    as (b1 & l1 & Hs1 & W1 & E1 & stL1 & F1 & Hx1 & Hf1 & Hrel1 & Hw1 & HFn1 & Hk1 & Hse1 & Hinc1).
+  destruct Hp1 as (W1 & E1 & stL1 & F1 & Hx1 & Hf1 & Hrel1 & Hw1 & HFn1 & Hk1 & Hse1 & Hinc1).
   assert (Hctx1 : ctx_ok l1 F1 E1 c0 c') by (eapply (ctx_after_blk bound u); eassumption).
   pose proof (wr_ncell _ _ _ _ _ _ _ Hf1) as Hn1.
   destruct (SyltSem.eval n e1 value st1) as [[v_|o|cc] st2] eqn:He2.
-  3: { inversion Hev; subst. destruct Hnoab. }
+  3: { exfalso. exact (noexit_fexpr_noab n k e1 value st1 _ _ Hne He2). }
   2: { inversion Hev; subst.
        destruct (IHF fl1 W1 g k value _ ctx c0 code_v rv c' e1 st1 _ st' sc1 l1 E1 stL1 F1 He2 Hm Hfe Huv Hcrv Hctx1 Hrel1 Hint)
          as (b2 & l2 & Hs2 & _ & _ & Hp2). destruct Hp2 as (rl & Hx2 & (ev & stL2 & -> & Htr)).
@@ -1160,33 +1513,20 @@ Proof.
 Qed.
 
 (* ... then `ret` of the function-valued expression *)
-Lemma exec_block_app : forall a n e st b,
-  SyltSem.exec_block n e (a ++ b) st =
-  (let (r, st') := SyltSem.exec_block n e a st in
-   match r with
-   | SyltSem.RVal e' => SyltSem.exec_block (n - length a) e' b st'
-   | SyltSem.RStop o => (SyltSem.RStop o, st')
-   | SyltSem.RAbrupt c => (SyltSem.RAbrupt c, st')
-   end).
-Proof.
-  induction a as [|s a IH]; intros n e st b.
-  - cbn [app length]. rewrite Nat.sub_0_r. destruct n as [|n]; reflexivity.
-  - destruct n as [|n]; [reflexivity|]. cbn [app SyltSem.exec_block length Nat.sub]. unfold SyltSem.bind.
-    destruct (SyltSem.exec n e s st) as [[e1|o|cc] st1]; [apply IH | reflexivity | reflexivity].
-Qed.
-
 Lemma P_fb_fun_ret n ka kr :
+  (forall m, (m <= n)%nat -> forall fl' W', P_eval pv sv bound u fl' W' m) ->
   (forall m, (m <= n)%nat -> forall fl' W', P_farg pv sv bound u fl' W' m) -> (forall fl' W', P_blk pv sv bound u fl' W' n) ->
-  forall g k init value sp ctx c code c' e st r st' sc sc1 fl1 l E stL F,
-    SyltSem.block_value (S n) e (init ++ [SRet (Some value) sp]) st = (r, st') ->
-    lower_fbody (statement g) (expression g) (init ++ [SRet (Some value) sp]) ctx c = Ok (code, c') ->
+  forall g k init guards value sp ctx c code c' e st r st' sc sc1 fl1 l E stL F,
+    SyltSem.block_value (S n) e ((init ++ guards) ++ [SRet (Some value) sp]) st = (r, st') ->
+    lower_fbody (statement g) (expression g) ((init ++ guards) ++ [SRet (Some value) sp]) ctx c = Ok (code, c') ->
     forallb (simple_init_stmt k) init = true -> noexit_fexpr k value = true ->
     frag_stmts pv sv bound fl k sc init = Some (sc1, fl1) -> frag_fexpr pv sv bound fl1 k sc1 value = Some (KF ka kr) ->
+    forallb (guard_ok pv sv bound fl1 k sc1 (KF ka kr)) guards = true ->
     ucovers u code -> ctx_ok l F E c c' ->
     rel sc e st E stL -> interesting r ->
     exists b l', cshape u l code b l' c c' /\ fb_post pv sv bound u fl W (KF ka kr) sc e E stL b r st'.
 Proof.
-  intros IHF IHb g k init value sp ctx c code c' e st r st' sc sc1 fl1 l E stL F Hev Hlow Hsimple Hne Hfi Hfe Hu Hctx Hrel Hint.
+  intros IHe IHF IHb g k init guards value sp ctx c code c' e st r st' sc sc1 fl1 l E stL F Hev Hlow Hsimple Hne Hfi Hfe Hgs Hu Hctx Hrel Hint.
   pose proof Hctx as [Hbc Hlut HFo HEf].
   cbn [SyltSem.block_value] in Hev. unfold lower_fbody in Hlow. rewrite rev_app_distr in Hev, Hlow. cbn [rev app] in Hev, Hlow.
   rewrite rev_involutive in Hlow.
@@ -1197,27 +1537,31 @@ Proof.
   assert (Hrest : forall l0, exists b2 l2, cshape u l0 code_v b2 l2 c0 c' /\ c0 <= rv /\ rv < c')
     by (intros lx; apply (L_fexpr_all pv sv bound u fl1 g' k value _ ctx c0 code_v rv c' sc1 lx Hm Hfe)).
   destruct (Hrest l) as (_ & _ & (_ & Hc0' & _) & _).
-  destruct (L_stmts_all pv sv bound u fl (S g') k init ctx c cs c0 sc (sc1, fl1) l Hmi Hfi) as (_ & _ & (_ & Hcc0 & _)).
   assert (Hret : forall l0, cshape u l0 [IReturn rv] (fst (agen_one u l0 (IReturn rv))) l0 c' c')
     by (intros lx; apply cshape_plain; [lia | reflexivity | reflexivity | reflexivity]).
   pose proof (frag_stmts_flincl pv sv bound _ _ _ _ _ _ Hfi) as Hfn.
-  assert (Hctxi : ctx_ok l F E c c0) by (eapply ctx_sub; [exact Hctx | lia | lia]).
   (* the reference interpreter: the statements before, then the ret with the fuel that is left *)
-  replace (rev (rev init) ++ [SRet (Some value) sp])%list with (init ++ [SRet (Some value) sp])%list in Hev by (rewrite rev_involutive; reflexivity).
+  replace (rev (rev (init ++ guards)) ++ [SRet (Some value) sp])%list with ((init ++ guards) ++ [SRet (Some value) sp])%list in Hev by (rewrite rev_involutive; reflexivity).
   unfold SyltSem.bind at 1 in Hev. rewrite exec_block_app in Hev.
-  destruct (SyltSem.exec_block n e init st) as [[e1|o|cc] st1] eqn:He1.
-  3: { exfalso. pose proof (simple_init_noab init n k e st _ _ Hsimple He1) as H. exact H. }
-  2: { inversion Hev; subst.
-       destruct (IHb fl W (S g') k _ ctx c _ c0 e st _ st' sc sc1 fl1 l E stL F He1 Hmi Hfi Hui Hctxi Hrel Hint)
-         as (b1 & l1 & Hs1 & Hp1). destruct (Hrest l1) as (b2 & l2 & Hs2 & _).
+  destruct (SyltSem.exec_block n e (init ++ guards) st) as [r1 st1] eqn:He1.
+  assert (Hi1 : interesting r1).
+  { destruct r1 as [e1|o|cc]; [exact I | inversion Hev; subst; exact Hint | inversion Hev; subst; destruct cc; exact Hint]. }
+  destruct (P_pre pv sv bound u n ka kr fl W IHe IHF IHb (S g') k init guards ctx c cs c0 c' e st r1 st1 sc sc1 fl1 l E stL F
+              He1 Hmi Hsimple Hfi Hgs Hui Hc0' Hctx Hrel Hi1) as (b1 & l1 & Hs1 & Hp1).
+  destruct r1 as [e1|o|cc].
+  3: { inversion Hev; subst r st'. destruct cc as [| |v]; try contradiction.
+       destruct (Hrest l1) as (b2 & l2 & Hs2 & _).
        eexists _, _. split; [eapply cshape_app; [exact Hs1|]; eapply cshape_app; [exact Hs2 | apply Hret]|].
-       cbn [blk_post fb_post] in *. destruct Hp1 as (rl & Hx1 & (ev & stL1 & -> & Htr)).
+       cbn [fb_post]. destruct Hp1 as (fl' & W' & sc' & e' & E' & Er & stL' & lv & Hx & Hrestp).
+       exists fl', W', sc', e', E', Er, stL', lv. split; [apply ExecS_app_stop; [exact Hx | intros []] | exact Hrestp]. }
+  2: { inversion Hev; subst r st'. destruct (Hrest l1) as (b2 & l2 & Hs2 & _).
+       eexists _, _. split; [eapply cshape_app; [exact Hs1|]; eapply cshape_app; [exact Hs2 | apply Hret]|].
+       cbn [fb_post]. destruct Hp1 as (ev & stL1 & Hx1 & Htr).
        exists ev, stL1. split; [apply ExecS_app_stop; [exact Hx1 | intros []] | exact Htr]. }
-  destruct (IHb fl W (S g') k _ ctx c _ c0 e st _ st1 sc sc1 fl1 l E stL F He1 Hmi Hfi Hui Hctxi Hrel I)
-    as (b1 & l1 & Hs1 & W1 & E1 & stL1 & F1 & Hx1 & Hf1 & Hrel1 & Hw1 & HFn1 & Hk1 & Hse1 & Hinc1).
+  destruct Hp1 as (W1 & E1 & stL1 & F1 & Hx1 & Hf1 & Hrel1 & Hw1 & HFn1 & Hk1 & Hse1 & Hinc1).
   assert (Hctx1 : ctx_ok l1 F1 E1 c0 c') by (eapply (ctx_after_blk bound u); eassumption).
   pose proof (wr_ncell _ _ _ _ _ _ _ Hf1) as Hn1.
-  destruct (n - length init)%nat as [|[|m2]] eqn:Hm2.
+  destruct (n - length (init ++ guards))%nat as [|[|m2]] eqn:Hm2.
   1,2: cbn in Hev; inversion Hev; subst; destruct Hint.
   cbn [SyltSem.exec_block SyltSem.exec] in Hev. unfold SyltSem.bind at 1 2 in Hev.
   destruct (SyltSem.eval m2 e1 value st1) as [[v_|o|cc] st2] eqn:He2.
@@ -1253,41 +1597,45 @@ Proof.
 Qed.
 
 Lemma P_fb_succ_fun n ka kr :
+  (forall m, (m <= n)%nat -> forall fl' W', P_eval pv sv bound u fl' W' m) ->
   (forall m, (m <= n)%nat -> forall fl' W', P_farg pv sv bound u fl' W' m) -> (forall fl' W', P_blk pv sv bound u fl' W' n) ->
   forall g k body ctx c code c' e st r st' sc l E stL F,
     SyltSem.block_value (S n) e body st = (r, st') ->
     lower_fbody (statement g) (expression g) body ctx c = Ok (code, c') ->
-    fbody_check (frag_stmts pv sv bound fl k sc) (fun fl1 sc1 x => frag_fexpr pv sv bound fl1 k sc1 x) k body (KF ka kr) = true ->
+    fbody_check (frag_stmts pv sv bound fl k sc) (fun fl1 sc1 x => frag_fexpr pv sv bound fl1 k sc1 x) (fun fl1 sc1 x => frag_expr pv sv bound fl1 k sc1 x) k body (KF ka kr) = true ->
     ucovers u code -> ctx_ok l F E c c' ->
     rel sc e st E stL -> interesting r ->
     exists b l', cshape u l code b l' c c' /\ fb_post pv sv bound u fl W (KF ka kr) sc e E stL b r st'.
 Proof.
-  intros IHF IHb g k body ctx c code c' e st r st' sc l E stL F Hev Hlow Hcheck Hu Hctx Hrel Hint.
+  intros IHe IHF IHb g k body ctx c code c' e st r st' sc l E stL F Hev Hlow Hcheck Hu Hctx Hrel Hint.
   cbn [fbody_check] in Hcheck.
-  destruct (split_last body) as [[init last]|] eqn:Hsl; [|discriminate Hcheck].
+  destruct (split_last body) as [[pre last]|] eqn:Hsl; [|discriminate Hcheck].
   destruct (tail_fexpr last) as [fx|] eqn:Htl; [|discriminate Hcheck].
+  destruct (take_init pre) as [init guards] eqn:Hti.
   apply andb_prop in Hcheck as [Hc1 Hc3]. apply andb_prop in Hc1 as [Hsimple Hne].
   destruct (frag_stmts pv sv bound fl k sc init) as [[sc1 fl1]|] eqn:Hfi; [|discriminate Hc3].
+  apply andb_prop in Hc3 as [Hc3 Hgs].
   destruct (frag_fexpr pv sv bound fl1 k sc1 fx) as [K|] eqn:Hfe; [|discriminate Hc3]. apply kind_eqb_eq in Hc3. subst K.
-  apply split_last_inv in Hsl. subst body.
+  apply split_last_inv in Hsl. subst body. apply take_init_app in Hti. subst pre.
+  assert (Hgs' : forallb (guard_ok pv sv bound fl1 k sc1 (KF ka kr)) guards = true) by exact Hgs.
   destruct last; try discriminate Htl.
   - destruct value as [value|]; [|discriminate Htl]. cbn [tail_fexpr] in Htl. inversion Htl; subst fx.
-    eapply (P_fb_fun_ret n ka kr IHF IHb); eassumption.
+    eapply (P_fb_fun_ret n ka kr IHe IHF IHb); eassumption.
   - cbn [tail_fexpr] in Htl. inversion Htl; subst fx.
-    eapply (P_fb_fun_expr n ka kr (IHF n (Nat.le_refl n)) IHb); eassumption.
+    eapply (P_fb_fun_expr n ka kr IHe IHF IHb); eassumption.
 Qed.
 
 Lemma P_fb_succ n :
-  (forall fl' W', P_eval pv sv bound u fl' W' n) -> (forall m, (m <= n)%nat -> forall fl' W', P_farg pv sv bound u fl' W' m) ->
+  (forall m, (m <= n)%nat -> forall fl' W', P_eval pv sv bound u fl' W' m) -> (forall m, (m <= n)%nat -> forall fl' W', P_farg pv sv bound u fl' W' m) ->
   (forall fl' W', P_blk pv sv bound u fl' W' n) ->
   P_fb pv sv bound u fl W (S n).
 Proof.
   intros IHe IHF IHb g k body rk. destruct rk as [|ka kr].
-  - apply P_fb_succ_plain; assumption.
+  - apply P_fb_succ_plain; [apply (IHe n (Nat.le_refl n)) | assumption].
   - apply P_fb_succ_fun; assumption.
 Qed.
 
-End Body.
+End Body2.
 
 Section Call.
 Variable pv : N.
@@ -1534,7 +1882,7 @@ Proof.
     split; [apply P_eval_succ; [assumption | assumption | apply P_ecall_succ; intros W'; apply (IH fl W')]|]. split; [apply P_exec_succ; assumption|].
     split; [apply P_blk_succ; [intros fl' W'; apply (IH fl' W') | intros fl' W'; apply (IH fl' W') | intros fl' W'; apply (IHle (pred n)); lia]|].
     split; [apply P_bv_succ; [intros fl' W'; apply (IH fl' W') | assumption]|].
-    split; [apply P_fb_succ; [intros fl' W'; apply (IH fl' W') | intros m Hm' fl' W'; apply (IHle m); lia | intros fl' W'; apply (IH fl' W')]|].
+    split; [apply P_fb_succ; [intros m Hm' fl' W'; apply (IHle m); lia | intros m Hm' fl' W'; apply (IHle m); lia | intros fl' W'; apply (IH fl' W')]|].
     split; [apply P_apply_succ; intros fl' W'; apply (IH fl' W')|].
     apply P_farg_succ; intros W'; apply (IH fl W').
 Qed.
